@@ -183,6 +183,31 @@ async function readcuts_case(c) {
     return {base: base, bulk: bulk, executions: executions, chunks: chunks, ndiff: ndiff, diffs: diffs};
 }
 
+async function readcutlist_case(c) {
+    // long inputs: one-piece delivery against every listed two-piece delivery (cut positions given by the caller) and uniform chunk sizes
+    let data = Buffer.from(c.hex, 'hex');
+    let n = data.length;
+    let base = await read_case(Object.assign({}, c, {mode: 'stream', pieces: [c.hex]}));
+    let bulk = await read_case(Object.assign({}, c, {mode: 'bulk'}));
+    let basekey = result_key(base);
+    let diffs = [], ndiff = 0, executions = 0, chunks = 0;
+    for (let p of c.cuts) {
+        if (p <= 0 || p >= n) continue;
+        let pieces = [data.subarray(0, p).toString('hex'), data.subarray(p).toString('hex')];
+        let r = await read_case(Object.assign({}, c, {mode: 'stream', pieces: pieces}));
+        executions += 1; chunks += 2;
+        if (result_key(r) !== basekey) { ndiff += 1; if (diffs.length < 3) diffs.push({pieces: [String(p) + ' bytes', String(n - p) + ' bytes'], cut: p, result: r}); }
+    }
+    for (let size of (c.uniform || [])) {
+        let pieces = [];
+        for (let i = 0; i < n; i += size) pieces.push(data.subarray(i, Math.min(n, i + size)).toString('hex'));
+        let r = await read_case(Object.assign({}, c, {mode: 'stream', pieces: pieces}));
+        executions += 1; chunks += pieces.length;
+        if (result_key(r) !== basekey) { ndiff += 1; if (diffs.length < 3) diffs.push({pieces: ['uniform chunks of ' + size + ' bytes'], result: r}); }
+    }
+    return {base: base, bulk: bulk, executions: executions, chunks: chunks, ndiff: ndiff, diffs: diffs};
+}
+
 async function write_case(c) {
     let ms = new MemWritable();
     let out = {};
@@ -301,6 +326,7 @@ async function handle(c) {
         case 'read': return await read_case(c);
         case 'readcomp': return await readcomp_case(c);
         case 'readcuts': return await readcuts_case(c);
+        case 'readcutlist': return await readcutlist_case(c);
         case 'lasso': return await lasso_case(c);
         case 'query_csv': return await guarded(() => query_csv_case(c), HANG_MS);
         case 'write': return await write_case(c);
